@@ -1,13 +1,664 @@
 /-
   x86-64 simulation, opcode class `memOpcodes`: the instruction sequence the JIT emits for each of these eBPF
   instructions, run by the x86-64 machine model, computes what `EngineSem.jitExec` says (statement: `JitSim.ArmSim`).
+
+  Layout: inversion of the eBPF side (`rd`, `load`, `store`, `xaddAnyAlign`), single machine instructions
+  (`exec` of `load`/`store`/`storeI`/`lockAdd`/`movabs`/`add`/`mov`), one simulation lemma per instruction shape
+  (`mem_sim_load`, `mem_sim_store`, `mem_sim_storeI`, `mem_sim_lockAdd`, `mem_sim_ldabs`, `mem_sim_ldind`), then the
+  22 opcodes.  The region-level facts (M1 `mem_read`, M2 `mem_write`) are in `MemRegions.lean`.
 -/
 import RbpfModel.Lemmas.X86Sim.Base
+import RbpfModel.Lemmas.X86Sim.MemRegions
 namespace Rbpf.JitSim
 open Rbpf.X86 (Cfg St Out Instr step exec decode fetch readMem writeMem)
 open Rbpf.JitAst (AI Tgt checkSeq window)
+open Rbpf.Interp
 
+/-! ### the eBPF side: what `.next` tells -/
+
+theorem mem_rd_next (s s' : State) (k : Nat) (f : BitVec 64 → Outcome) (h : rd s k f = .next s') :
+    ∃ v, k < 11 ∧ s.reg.getD k 0 = v ∧ f v = .next s' := by
+  unfold rd at h
+  cases hv : s.reg[k]? with
+  | none => rw [hv] at h; cases h
+  | some v =>
+    rw [hv] at h
+    have hk : k < 11 := by
+      by_cases hk : k < 11
+      · exact hk
+      · simp [Vector.getElem?_eq_none (Nat.le_of_not_lt hk)] at hv
+    refine ⟨v, hk, ?_, h⟩
+    simp [Vector.getD, hv]
+
+theorem mem_load_next (env : Env) (s s' : State) (addr : BitVec 64) (w dst : Nat) (hd : dst < 11)
+    (h : load env s addr w dst = .next s') :
+    ∃ bs, s.mem.readBytes? addr.toNat w = some bs ∧
+      s' = { s with reg := s.reg.setIfInBounds dst (BitVec.ofNat 64 (leValue bs)) } := by
+  unfold load at h
+  split at h
+  · cases hr : s.mem.readBytes? addr.toNat w with
+    | none => rw [hr] at h; cases h
+    | some bs =>
+      rw [hr] at h
+      simp only [wr, if_pos hd, Outcome.next.injEq] at h
+      exact ⟨bs, rfl, h.symm⟩
+  · cases h
+
+theorem mem_store_next (env : Env) (s s' : State) (addr : BitVec 64) (w : Nat) (v : BitVec 64)
+    (h : store env s addr w v = .next s') :
+    ∃ m', s.mem.writeBytes? addr.toNat (leBytes v.toNat w) = some m' ∧ s' = { s with mem := m' } := by
+  unfold store at h
+  split at h
+  · cases hr : s.mem.writeBytes? addr.toNat (leBytes v.toNat w) with
+    | none => rw [hr] at h; cases h
+    | some m' =>
+      rw [hr] at h
+      simp only [Outcome.next.injEq] at h
+      exact ⟨m', rfl, h.symm⟩
+  · cases h
+
+theorem mem_xadd_next (env : Env) (s s' : State) (addr : BitVec 64) (w : Nat) (v : BitVec 64)
+    (h : EngineSem.xaddAnyAlign env s addr w v = .next s') :
+    ∃ bs m', s.mem.readBytes? addr.toNat w = some bs ∧
+      s.mem.writeBytes? addr.toNat (leBytes (leValue bs + v.toNat) w) = some m' ∧ s' = { s with mem := m' } := by
+  unfold EngineSem.xaddAnyAlign at h
+  split at h
+  · cases hr : s.mem.readBytes? addr.toNat w with
+    | none => rw [hr] at h; cases h
+    | some bs =>
+      rw [hr] at h
+      simp only [] at h
+      cases hq : s.mem.writeBytes? addr.toNat (leBytes (leValue bs + v.toNat) w) with
+      | none => rw [hq] at h; cases h
+      | some m' =>
+        rw [hq] at h
+        simp only [Outcome.next.injEq] at h
+        exact ⟨bs, m', rfl, hq, h.symm⟩
+  · cases h
+
+theorem mem_arm_regs (haddr : Nat → Option Nat) (pc : Nat) (i : Insn) (nx : Option Insn) (ais : List AI) (n : Nat)
+    (h : JitAst.arm haddr pc i nx = .ok (ais, n)) : i.dst.toNat < 11 ∧ i.src.toNat < 11 := by
+  by_cases hd : i.dst.toNat < 11
+  · by_cases hs : i.src.toNat < 11
+    · exact ⟨hd, hs⟩
+    · unfold JitAst.arm at h
+      rw [mapRegister_eq _ hd, mapRegister_none _ (by omega)] at h
+      simp at h
+  · unfold JitAst.arm at h
+    rw [mapRegister_none _ (by omega)] at h
+    simp at h
+
+/-! ### addresses -/
+
+theorem mem_addrOf (σ : St) (r : Nat) (x : BitVec 64) (off : BitVec 16) (hx : σ.get r = x) :
+    X86.addrOf σ r off.toInt = (x + off.signExtend 64).toNat := by
+  show ((((σ.get r).toNat : Int) + off.toInt) % (2 ^ 64 : Int)).toNat = _
+  rw [hx, BitVec.toNat_add, BitVec.toNat_signExtend, BitVec.toNat_setWidth, BitVec.toInt_eq_msb_cond]
+  have := x.isLt
+  have := off.isLt
+  split <;> omega
+
+theorem mem_addrOf_nat (σ : St) (r : Nat) (d : Nat) :
+    X86.addrOf σ r (d : Int) = ((σ.get r).toNat + d) % 2 ^ 64 := by
+  show ((((σ.get r).toNat : Int) + d) % (2 ^ 64 : Int)).toNat = _
+  omega
+
+theorem mem_addrOf_zero (σ : St) (r : Nat) : X86.addrOf σ r 0 = (σ.get r).toNat := by
+  show ((((σ.get r).toNat : Int) + 0) % (2 ^ 64 : Int)).toNat = _
+  have := (σ.get r).isLt
+  omega
+
+theorem mem_regOf_zero : regOf 0 = 0 := by decide
+
+theorem mem_get_congr (σ σ' : St) (h : σ'.reg = σ.reg) (r : Nat) : σ'.get r = σ.get r := by
+  simp [St.get, h]
+
+/-! ### machine steps -/
+
+theorem mem_stepsN_cons (c : Cfg) (σ σ1 σ2 : St) (k : Nat) (h1 : step c σ = .next σ1) (h2 : stepsN c k σ1 = some σ2) :
+    stepsN c (k + 1) σ = some σ2 := by
+  show (match step c σ with | .next s' => stepsN c k s' | _ => none) = some σ2
+  rw [h1]; exact h2
+
+theorem mem_stepsN_single (c : Cfg) (σ σ1 : St) (h1 : step c σ = .next σ1) : stepsN c 1 σ = some σ1 :=
+  mem_stepsN_cons c σ σ1 σ1 0 h1 rfl
+
+/-- the first instruction of a checked sequence is what the machine executes there -/
+theorem mem_step_cons (c : Cfg) (tgt : Tgt → Option Nat) (a b : Nat) (x : Instr) (rest : List AI) (σ : St)
+    (hcs : checkSeq c.code tgt a (.i x :: rest) = some b) (hrip : σ.rip = c.codeBase + a) :
+    ∃ a', step c σ = exec c σ x (c.codeBase + a') ∧ checkSeq c.code tgt a' rest = some b := by
+  obtain ⟨n, hdec, hrest⟩ := checkSeq_i _ _ _ _ _ _ hcs
+  refine ⟨a + n, ?_, hrest⟩
+  rw [step_at c σ a n x hrip hdec, Nat.add_assoc]
+
+theorem mem_step_last (c : Cfg) (tgt : Tgt → Option Nat) (a b : Nat) (x : Instr) (σ : St)
+    (hcs : checkSeq c.code tgt a [.i x] = some b) (hrip : σ.rip = c.codeBase + a) :
+    step c σ = exec c σ x (c.codeBase + b) := by
+  obtain ⟨a', hstep, hcs'⟩ := mem_step_cons c tgt a b x [] σ hcs hrip
+  simp only [checkSeq_nil, Option.some.injEq] at hcs'
+  subst hcs'
+  exact hstep
+
+theorem mem_exec_load (c : Cfg) (σ : St) (sz w rd rb : Nat) (disp : Int) (nx addr : Nat) (bs : List (BitVec 8))
+    (hsz : sz / 8 = w) (haddr : X86.addrOf σ rb disp = addr) (hr : readMem σ.mem addr w = some bs) :
+    exec c σ (.load sz rd rb disp) nx = .next (({ σ with rip := nx } : St).set rd (BitVec.ofNat 64 (leValue bs))) := by
+  subst hsz haddr
+  show (match readMem σ.mem (X86.addrOf σ rb disp) (sz / 8) with
+    | some bs => Out.next (({ σ with rip := nx } : St).set rd (BitVec.ofNat 64 (leValue bs)))
+    | none => Out.fault "load outside memory") = _
+  rw [hr]
+
+theorem mem_exec_store (c : Cfg) (σ : St) (sz w rs rb : Nat) (disp : Int) (nx addr : Nat) (bs : List (BitVec 8))
+    (xm' : List Region) (hsz : sz / 8 = w) (haddr : X86.addrOf σ rb disp = addr)
+    (hbs : leBytes (σ.get rs).toNat w = bs) (hwr : writeMem σ.mem addr bs = some xm') :
+    exec c σ (.store sz rs rb disp) nx = .next { σ with rip := nx, mem := xm' } := by
+  subst hsz haddr hbs
+  show (match writeMem σ.mem (X86.addrOf σ rb disp) (leBytes (σ.get rs).toNat (sz / 8)) with
+    | some m => Out.next { σ with rip := nx, mem := m }
+    | none => Out.fault "store outside memory") = _
+  rw [hwr]
+
+theorem mem_exec_storeI (c : Cfg) (σ : St) (sz w rb : Nat) (disp : Int) (im : BitVec 32) (nx addr : Nat)
+    (bs : List (BitVec 8)) (xm' : List Region) (hsz : sz / 8 = w) (haddr : X86.addrOf σ rb disp = addr)
+    (hbs : leBytes (if sz = 64 then (im.signExtend 64).toNat else im.toNat) w = bs)
+    (hwr : writeMem σ.mem addr bs = some xm') :
+    exec c σ (.storeI sz rb disp im) nx = .next { σ with rip := nx, mem := xm' } := by
+  subst hsz haddr hbs
+  show (match writeMem σ.mem (X86.addrOf σ rb disp)
+      (leBytes (if sz = 64 then (im.signExtend 64).toNat else im.toNat) (sz / 8)) with
+    | some m => Out.next { σ with rip := nx, mem := m }
+    | none => Out.fault "store outside memory") = _
+  rw [hwr]
+
+theorem mem_exec_lockAdd (c : Cfg) (σ : St) (wb : Bool) (w rs rb : Nat) (disp : Int) (nx addr : Nat)
+    (bs bs' : List (BitVec 8)) (xm' : List Region) (hw : (if wb then 8 else 4) = w)
+    (haddr : X86.addrOf σ rb disp = addr) (hr : readMem σ.mem addr w = some bs)
+    (hbs : leBytes (leValue bs + (σ.get rs).toNat) w = bs') (hwr : writeMem σ.mem addr bs' = some xm') :
+    exec c σ (.lockAdd wb rs rb disp) nx = .next { σ with rip := nx, mem := xm', flags := none } := by
+  subst hw haddr hbs
+  show (match readMem σ.mem (X86.addrOf σ rb disp) (if wb then 8 else 4) with
+    | some bs =>
+      match writeMem σ.mem (X86.addrOf σ rb disp) (leBytes (leValue bs + (σ.get rs).toNat) (if wb then 8 else 4)) with
+      | some m => Out.next { σ with rip := nx, mem := m, flags := none }
+      | none => Out.fault "lock add outside memory"
+    | none => Out.fault "lock add outside memory") = _
+  rw [hr]
+  simp only []
+  rw [hwr]
+
+/-- `add dst, src` (64 bit): the registers and memory of `σ0` are those of `σ` -/
+theorem mem_exec_add64 (c : Cfg) (σ : St) (src dst nx : Nat) :
+    ∃ σ0 : St, σ0.reg = σ.reg ∧ σ0.mem = σ.mem ∧
+      exec c σ (.aluRR true .add src dst) nx = .next (σ0.set dst (σ.get dst + σ.get src)) ∧
+      (σ0.set dst (σ.get dst + σ.get src)).rip = nx := by
+  refine ⟨{ σ with rip := nx, flags := some (X86.flagsAdd 64 (X86.trunc 64 (σ.get dst)) (X86.trunc 64 (σ.get src))) },
+    rfl, rfl, ?_, rfl⟩
+  have hv : BitVec.ofNat 64 ((X86.trunc 64 (σ.get dst) + X86.trunc 64 (σ.get src)) % 2 ^ 64 % 2 ^ 64) =
+      σ.get dst + σ.get src := by
+    apply BitVec.eq_of_toNat_eq
+    have := (σ.get dst).isLt
+    have := (σ.get src).isLt
+    simp only [X86.trunc, BitVec.toNat_ofNat, BitVec.toNat_add]
+    omega
+  rw [← hv]
+  rfl
+
+/-- `mov dst, src` (64 bit) -/
+theorem mem_exec_mov64 (c : Cfg) (σ : St) (src dst nx : Nat) :
+    exec c σ (JitAst.movRR src dst) nx = .next (({ σ with rip := nx } : St).set dst (σ.get src)) := by
+  have hv : BitVec.ofNat 64 (X86.trunc 64 (σ.get src) % 2 ^ 64) = σ.get src := by
+    apply BitVec.eq_of_toNat_eq
+    have := (σ.get src).isLt
+    simp only [X86.trunc, BitVec.toNat_ofNat]
+    omega
+  rw [← hv]
+  rfl
+
+/-! ### `Rel0` across a write -/
+
+theorem mem_rel0_write (retAddr : Nat) (σ : St) (s : State) (a : Nat) (bs : List (BitVec 8)) (m' : Memory)
+    (h : Rel0 retAddr σ s) (hw : 0 < bs.length) (hwr : s.mem.writeBytes? a bs = some m') :
+    ∃ xm', writeMem σ.mem a bs = some xm' ∧ ∀ σ' : St, σ'.reg = σ.reg → σ'.mem = xm' →
+      Rel0 retAddr σ' { s with mem := m' } ∧ topBytes σ' { s with mem := m' } = topBytes σ s := by
+  obtain ⟨xm', hwm, hrel, hsb, hmb, htop, hlow⟩ := mem_write σ.mem s.mem a bs m' h.mem hw hwr
+  refine ⟨xm', hwm, fun σ' hr hm => ⟨⟨?_, ?_, ?_, ?_, ?_, ?_⟩, ?_⟩⟩
+  · intro k hk
+    rw [mem_get_congr σ σ' hr]
+    exact h.regs k hk
+  · rw [hm]; exact hrel
+  · rw [mem_get_congr σ σ' hr]
+    show _ = BitVec.ofNat 64 m'.mem.base
+    rw [hmb]; exact h.pkt
+  · rw [mem_get_congr σ σ' hr]
+    show _ = m'.stack.base
+    rw [hsb]; exact h.rsp
+  · have := h.rsp
+    rw [mem_get_congr σ σ' hr, hm, hlow _ 8 (by omega) (by omega) (by omega)]
+    exact h.ret
+  · exact h.frames
+  · show readMem σ'.mem (m'.stack.base + 512) 56 = readMem σ.mem (s.mem.stack.base + 512) 56
+    rw [hm, hsb]; exact htop
+
+/-! ### one lemma per instruction shape -/
+
+/-- `ldx{b,h,w,dw}` -/
+theorem mem_sim_load (i : Insn) (sz w : Nat) (hsz : sz / 8 = w) (hw : 0 < w)
+    (harm : ∀ haddr pc nx, i.dst.toNat < 11 → i.src.toNat < 11 → JitAst.arm haddr pc i nx =
+      .ok ([.i (.load sz (regOf i.dst.toNat) (regOf i.src.toNat) i.off.toInt)], 1))
+    (hexec : ∀ env s, EngineSem.jitExec env s i =
+      rd s i.src.toNat fun x => load env s (x + i.off.signExtend 64) w i.dst.toNat) : ArmSim i := by
+  intro c tgt haddr pc n a b retAddr ais σ env s s' ha hcs _ hrip hrel hpc hex
+  obtain ⟨hd, hs⟩ := mem_arm_regs _ _ _ _ _ _ ha
+  rw [harm _ _ _ hd hs] at ha
+  simp only [Except.ok.injEq, Prod.mk.injEq] at ha
+  obtain ⟨rfl, rfl⟩ := ha
+  rw [hexec] at hex
+  obtain ⟨x, _, hx, hex⟩ := mem_rd_next _ _ _ _ hex
+  obtain ⟨bs, hrd, rfl⟩ := mem_load_next _ _ _ _ _ _ hd hex
+  have hstep := mem_step_last _ _ _ _ _ _ hcs hrip
+  have hga : X86.addrOf σ (regOf i.src.toNat) i.off.toInt = (x + i.off.signExtend 64).toNat :=
+    mem_addrOf σ _ x _ (by rw [hrel.regs _ hs, hx])
+  have hrm := mem_read _ _ _ _ _ hrel.mem hw hrd
+  refine ⟨1, _, mem_stepsN_single c σ _ (hstep.trans (mem_exec_load c σ sz w _ _ _ _ _ bs hsz hga hrm)), ?_, rfl,
+    Or.inl ⟨hpc, rfl⟩⟩
+  exact rel0_wr _ _ _ _ _ hd (rel0_congr _ _ _ _ hrel rfl rfl)
+
+/-- `stx{b,h,w,dw}` -/
+theorem mem_sim_store (i : Insn) (sz w : Nat) (hsz : sz / 8 = w) (hw : 0 < w)
+    (harm : ∀ haddr pc nx, i.dst.toNat < 11 → i.src.toNat < 11 → JitAst.arm haddr pc i nx =
+      .ok ([.i (.store sz (regOf i.src.toNat) (regOf i.dst.toNat) i.off.toInt)], 1))
+    (hexec : ∀ env s, EngineSem.jitExec env s i =
+      rd s i.dst.toNat fun d => rd s i.src.toNat fun x => store env s (d + i.off.signExtend 64) w x) : ArmSim i := by
+  intro c tgt haddr pc n a b retAddr ais σ env s s' ha hcs _ hrip hrel hpc hex
+  obtain ⟨hd, hs⟩ := mem_arm_regs _ _ _ _ _ _ ha
+  rw [harm _ _ _ hd hs] at ha
+  simp only [Except.ok.injEq, Prod.mk.injEq] at ha
+  obtain ⟨rfl, rfl⟩ := ha
+  rw [hexec] at hex
+  obtain ⟨d, _, hdv, hex⟩ := mem_rd_next _ _ _ _ hex
+  obtain ⟨x, _, hx, hex⟩ := mem_rd_next _ _ _ _ hex
+  obtain ⟨m', hwb, rfl⟩ := mem_store_next _ _ _ _ _ _ hex
+  have hstep := mem_step_last _ _ _ _ _ _ hcs hrip
+  have hga : X86.addrOf σ (regOf i.dst.toNat) i.off.toInt = (d + i.off.signExtend 64).toNat :=
+    mem_addrOf σ _ d _ (by rw [hrel.regs _ hd, hdv])
+  obtain ⟨xm', hwm, hafter⟩ := mem_rel0_write retAddr σ s _ _ m' hrel (by rw [mem_leBytes_length]; exact hw) hwb
+  have hbs : leBytes (σ.get (regOf i.src.toNat)).toNat w = leBytes x.toNat w := by rw [hrel.regs _ hs, hx]
+  obtain ⟨hrel', htop⟩ := hafter { σ with rip := c.codeBase + b, mem := xm' } rfl rfl
+  exact ⟨1, _, mem_stepsN_single c σ _ (hstep.trans (mem_exec_store c σ sz w _ _ _ _ _ _ xm' hsz hga hbs hwm)), hrel', htop,
+    Or.inl ⟨hpc, rfl⟩⟩
+
+/-- `st{b,h,w,dw}`: `im` is the immediate the x86 instruction carries -/
+theorem mem_sim_storeI (i : Insn) (sz w : Nat) (im : BitVec 32) (hsz : sz / 8 = w) (hw : 0 < w)
+    (him : leBytes (if sz = 64 then (im.signExtend 64).toNat else im.toNat) w = leBytes (sx32 i.imm).toNat w)
+    (harm : ∀ haddr pc nx, i.dst.toNat < 11 → i.src.toNat < 11 → JitAst.arm haddr pc i nx =
+      .ok ([.i (.storeI sz (regOf i.dst.toNat) i.off.toInt im)], 1))
+    (hexec : ∀ env s, EngineSem.jitExec env s i =
+      rd s i.dst.toNat fun d => store env s (d + i.off.signExtend 64) w (sx32 i.imm)) : ArmSim i := by
+  intro c tgt haddr pc n a b retAddr ais σ env s s' ha hcs _ hrip hrel hpc hex
+  obtain ⟨hd, hs⟩ := mem_arm_regs _ _ _ _ _ _ ha
+  rw [harm _ _ _ hd hs] at ha
+  simp only [Except.ok.injEq, Prod.mk.injEq] at ha
+  obtain ⟨rfl, rfl⟩ := ha
+  rw [hexec] at hex
+  obtain ⟨d, _, hdv, hex⟩ := mem_rd_next _ _ _ _ hex
+  obtain ⟨m', hwb, rfl⟩ := mem_store_next _ _ _ _ _ _ hex
+  have hstep := mem_step_last _ _ _ _ _ _ hcs hrip
+  have hga : X86.addrOf σ (regOf i.dst.toNat) i.off.toInt = (d + i.off.signExtend 64).toNat :=
+    mem_addrOf σ _ d _ (by rw [hrel.regs _ hd, hdv])
+  obtain ⟨xm', hwm, hafter⟩ := mem_rel0_write retAddr σ s _ _ m' hrel (by rw [mem_leBytes_length]; exact hw) hwb
+  obtain ⟨hrel', htop⟩ := hafter { σ with rip := c.codeBase + b, mem := xm' } rfl rfl
+  exact ⟨1, _, mem_stepsN_single c σ _ (hstep.trans (mem_exec_storeI c σ sz w _ _ im _ _ _ xm' hsz hga him hwm)), hrel', htop,
+    Or.inl ⟨hpc, rfl⟩⟩
+
+/-- atomic add; `f x` is the addend of the eBPF side, equal to the source register modulo `2^(8w)` -/
+theorem mem_sim_lockAdd (i : Insn) (wb : Bool) (w : Nat) (f : BitVec 64 → BitVec 64) (hwb : (if wb then 8 else 4) = w) (hw : 0 < w)
+    (hf : ∀ x : BitVec 64, (f x).toNat % 2 ^ (8 * w) = x.toNat % 2 ^ (8 * w))
+    (harm : ∀ haddr pc nx, i.dst.toNat < 11 → i.src.toNat < 11 → JitAst.arm haddr pc i nx =
+      .ok ([.i (.lockAdd wb (regOf i.src.toNat) (regOf i.dst.toNat) i.off.toInt)], 1))
+    (hexec : ∀ env s, EngineSem.jitExec env s i =
+      rd s i.dst.toNat fun d => rd s i.src.toNat fun x =>
+        EngineSem.xaddAnyAlign env s (d + i.off.signExtend 64) w (f x)) : ArmSim i := by
+  intro c tgt haddr pc n a b retAddr ais σ env s s' ha hcs _ hrip hrel hpc hex
+  obtain ⟨hd, hs⟩ := mem_arm_regs _ _ _ _ _ _ ha
+  rw [harm _ _ _ hd hs] at ha
+  simp only [Except.ok.injEq, Prod.mk.injEq] at ha
+  obtain ⟨rfl, rfl⟩ := ha
+  rw [hexec] at hex
+  obtain ⟨d, _, hdv, hex⟩ := mem_rd_next _ _ _ _ hex
+  obtain ⟨x, _, hx, hex⟩ := mem_rd_next _ _ _ _ hex
+  obtain ⟨bs, m', hrd, hwr, rfl⟩ := mem_xadd_next _ _ _ _ _ _ hex
+  have hstep := mem_step_last _ _ _ _ _ _ hcs hrip
+  have hga : X86.addrOf σ (regOf i.dst.toNat) i.off.toInt = (d + i.off.signExtend 64).toNat :=
+    mem_addrOf σ _ d _ (by rw [hrel.regs _ hd, hdv])
+  have hrm := mem_read _ _ _ _ _ hrel.mem hw hrd
+  obtain ⟨xm', hwm, hafter⟩ := mem_rel0_write retAddr σ s _ _ m' hrel (by rw [mem_leBytes_length]; exact hw) hwr
+  have hbs : leBytes (leValue bs + (σ.get (regOf i.src.toNat)).toNat) w = leBytes (leValue bs + (f x).toNat) w := by
+    rw [hrel.regs _ hs, hx]
+    apply mem_leBytes_congr
+    rw [Nat.add_mod, ← hf x, ← Nat.add_mod]
+  obtain ⟨hrel', htop⟩ := hafter { σ with rip := c.codeBase + b, mem := xm', flags := none } rfl rfl
+  exact ⟨1, _, mem_stepsN_single c σ _ (hstep.trans (mem_exec_lockAdd c σ wb w _ _ _ _ _ bs _ xm' hwb hga hrm hbs hwm)),
+    hrel', htop, Or.inl ⟨hpc, rfl⟩⟩
+
+/-- `emit_load_packet` from base register r10 or r11: loads `[base + zero-extended imm]` into rax = eBPF r0 -/
+theorem mem_sim_loadPacket (c : Cfg) (tgt : Tgt → Option Nat) (a b : Nat) (σ : St) (s : State) (retAddr sz w rb : Nat)
+    (imm : BitVec 32) (bs : List (BitVec 8))
+    (hcs : checkSeq c.code tgt a (JitAst.loadPacket sz rb imm) = some b) (hrip : σ.rip = c.codeBase + a)
+    (hrel : Rel0 retAddr σ s) (hrb : rb = 10 ∨ rb = 11) (hsz : sz / 8 = w) (hw : 0 < w)
+    (hread : s.mem.readBytes? (σ.get rb + zx32 imm).toNat w = some bs) :
+    ∃ k σ', stepsN c k σ = some σ' ∧
+      Rel0 retAddr σ' { s with reg := s.reg.setIfInBounds 0 (BitVec.ofNat 64 (leValue bs)) } ∧
+      σ'.mem = σ.mem ∧ σ'.rip = c.codeBase + b := by
+  have hcond := BitVec.toInt_eq_toNat_cond imm
+  have hlt := imm.isLt
+  have hzx : (zx32 imm).toNat = imm.toNat := by
+    simp only [zx32, BitVec.toNat_setWidth]; omega
+  unfold JitAst.loadPacket at hcs
+  by_cases h0 : 0 ≤ imm.toInt
+  · rw [if_pos h0] at hcs
+    have hstep := mem_step_last _ _ _ _ _ _ hcs hrip
+    have hint : imm.toInt = (imm.toNat : Int) := by
+      split at hcond <;> omega
+    have hga : X86.addrOf σ rb imm.toInt = (σ.get rb + zx32 imm).toNat := by
+      rw [hint, mem_addrOf_nat, BitVec.toNat_add, hzx]
+    have hrm := mem_read _ _ _ _ _ hrel.mem hw hread
+    refine ⟨1, _, mem_stepsN_single c σ _ (hstep.trans (mem_exec_load c σ sz w _ _ _ _ _ bs hsz hga hrm)), ?_, rfl, rfl⟩
+    have := rel0_wr retAddr _ s 0 (BitVec.ofNat 64 (leValue bs)) (by omega)
+      (rel0_congr retAddr σ { σ with rip := c.codeBase + b } s hrel rfl rfl)
+    rw [mem_regOf_zero] at this
+    exact this
+  · rw [if_neg h0] at hcs
+    have hli : JitAst.loadImm JitAst.RCX (imm.toNat : Int) = .movabs JitAst.RCX (BitVec.ofInt 64 (imm.toNat : Int)) := by
+      unfold JitAst.loadImm
+      rw [if_neg]
+      split at hcond <;> omega
+    rw [hli] at hcs
+    -- movabs rcx, imm
+    obtain ⟨a1, hstep1, hcs1⟩ := mem_step_cons _ _ _ _ _ _ _ hcs hrip
+    have hex1 : exec c σ (.movabs JitAst.RCX (BitVec.ofInt 64 (imm.toNat : Int))) (c.codeBase + a1) =
+        .next (({ σ with rip := c.codeBase + a1 } : St).set 1 (BitVec.ofInt 64 (imm.toNat : Int))) := rfl
+    generalize hσ1 : ({ σ with rip := c.codeBase + a1 } : St).set 1 (BitVec.ofInt 64 (imm.toNat : Int)) = σ1 at hex1
+    have hrel1 : Rel0 retAddr σ1 s := by
+      rw [← hσ1]
+      exact rel0_scratch _ _ _ _ _ (Or.inl rfl) (rel0_congr retAddr σ _ s hrel rfl rfl)
+    have hrip1 : σ1.rip = c.codeBase + a1 := by rw [← hσ1]; rfl
+    have hmem1 : σ1.mem = σ.mem := by rw [← hσ1]; rfl
+    have hrcx1 : σ1.get 1 = BitVec.ofInt 64 (imm.toNat : Int) := by
+      rw [← hσ1]; exact get_set_eq _ 1 _ (by omega)
+    have hrb1 : σ1.get rb = σ.get rb := by
+      rw [← hσ1, get_set_ne _ 1 rb _ (by omega)]; rfl
+    -- add rcx, base
+    obtain ⟨a2, hstep2, hcs2⟩ := mem_step_cons _ _ _ _ _ _ _ hcs1 hrip1
+    obtain ⟨σ0, hreg0, hmem0, hex2, hrip2⟩ := mem_exec_add64 c σ1 rb JitAst.RCX (c.codeBase + a2)
+    generalize hσ2 : σ0.set JitAst.RCX (σ1.get JitAst.RCX + σ1.get rb) = σ2 at hex2 hrip2
+    have hrel2 : Rel0 retAddr σ2 s := by
+      rw [← hσ2]
+      exact rel0_scratch _ _ _ _ _ (Or.inl rfl) (rel0_congr retAddr σ1 _ s hrel1 hreg0 hmem0)
+    have hmem2 : σ2.mem = σ.mem := by rw [← hσ2, ← hmem1, ← hmem0]; rfl
+    have hrcx2 : σ2.get 1 = σ.get rb + zx32 imm := by
+      rw [← hσ2]
+      show (σ0.set 1 (σ1.get 1 + σ1.get rb)).get 1 = _
+      rw [get_set_eq _ 1 _ (by omega), hrcx1, hrb1, BitVec.add_comm]
+      congr 1
+      apply BitVec.eq_of_toNat_eq
+      rw [hzx, BitVec.ofInt_natCast, BitVec.toNat_ofNat]
+      omega
+    -- load rax, [rcx]
+    have hstep3 := mem_step_last _ _ _ _ _ _ hcs2 hrip2
+    have hga : X86.addrOf σ2 JitAst.RCX 0 = (σ.get rb + zx32 imm).toNat := by
+      rw [mem_addrOf_zero]; show (σ2.get 1).toNat = _; rw [hrcx2]
+    have hrm : readMem σ2.mem (σ.get rb + zx32 imm).toNat w = some bs := by
+      rw [hmem2]; exact mem_read _ _ _ _ _ hrel.mem hw hread
+    have hex3 := mem_exec_load c σ2 sz w JitAst.RAX JitAst.RCX 0 (c.codeBase + b) _ bs hsz hga hrm
+    refine ⟨3, _, mem_stepsN_cons c σ σ1 _ 2 (hstep1.trans hex1)
+      (mem_stepsN_cons c σ1 σ2 _ 1 (hstep2.trans hex2) (mem_stepsN_single c σ2 _ (hstep3.trans hex3))), ?_, hmem2, rfl⟩
+    have := rel0_wr retAddr _ s 0 (BitVec.ofNat 64 (leValue bs)) (by omega)
+      (rel0_congr retAddr σ2 { σ2 with rip := c.codeBase + b } s hrel2 rfl rfl)
+    rw [mem_regOf_zero] at this
+    exact this
+
+/-- `ldabs{b,h,w,dw}` -/
+theorem mem_sim_ldabs (i : Insn) (sz w : Nat) (hsz : sz / 8 = w) (hw : 0 < w)
+    (harm : ∀ haddr pc nx, i.dst.toNat < 11 → i.src.toNat < 11 → JitAst.arm haddr pc i nx =
+      .ok (JitAst.loadPacket sz JitAst.R10 i.imm, 1))
+    (hexec : ∀ env s, EngineSem.jitExec env s i = pktAbs s i.imm fun a => load env s a w 0) : ArmSim i := by
+  intro c tgt haddr pc n a b retAddr ais σ env s s' ha hcs _ hrip hrel hpc hex
+  obtain ⟨hd, hs⟩ := mem_arm_regs _ _ _ _ _ _ ha
+  rw [harm _ _ _ hd hs] at ha
+  simp only [Except.ok.injEq, Prod.mk.injEq] at ha
+  obtain ⟨rfl, rfl⟩ := ha
+  rw [hexec] at hex
+  unfold pktAbs at hex
+  split at hex
+  · cases hex
+  · rename_i hlt
+    obtain ⟨bs, hrd, rfl⟩ := mem_load_next _ _ _ _ _ _ (by omega) hex
+    have hlt' := i.imm.isLt
+    have haddr : (σ.get 10 + zx32 i.imm).toNat = (BitVec.ofNat 64 (s.mem.mem.base + i.imm.toNat)).toNat := by
+      rw [hrel.pkt]
+      simp only [zx32, BitVec.toNat_add, BitVec.toNat_ofNat, BitVec.toNat_setWidth]
+      omega
+    rw [← haddr] at hrd
+    obtain ⟨k, σ', hsteps, hrel', hmem', hrip'⟩ :=
+      mem_sim_loadPacket c tgt a b σ s retAddr sz w 10 i.imm bs hcs hrip hrel (Or.inl rfl) hsz hw hrd
+    refine ⟨k, σ', hsteps, hrel', ?_, Or.inl ⟨hpc, hrip'⟩⟩
+    show readMem σ'.mem _ _ = readMem σ.mem _ _
+    rw [hmem']
+
+/-- `ldind{b,h,w,dw}` -/
+theorem mem_sim_ldind (i : Insn) (sz w : Nat) (hsz : sz / 8 = w) (hw : 0 < w)
+    (harm : ∀ haddr pc nx, i.dst.toNat < 11 → i.src.toNat < 11 → JitAst.arm haddr pc i nx =
+      .ok ([.i (JitAst.movRR JitAst.R10 JitAst.R11), .i (.aluRR true .add (regOf i.src.toNat) JitAst.R11)] ++
+        JitAst.loadPacket sz JitAst.R11 i.imm, 1))
+    (hexec : ∀ env s, EngineSem.jitExec env s i =
+      rd s i.src.toNat fun x => load env s (BitVec.ofNat 64 s.mem.mem.base + x + zx32 i.imm) w 0) : ArmSim i := by
+  intro c tgt haddr pc n a b retAddr ais σ env s s' ha hcs _ hrip hrel hpc hex
+  obtain ⟨hd, hs⟩ := mem_arm_regs _ _ _ _ _ _ ha
+  rw [harm _ _ _ hd hs] at ha
+  simp only [Except.ok.injEq, Prod.mk.injEq] at ha
+  obtain ⟨rfl, rfl⟩ := ha
+  rw [hexec] at hex
+  obtain ⟨x, _, hx, hex⟩ := mem_rd_next _ _ _ _ hex
+  obtain ⟨bs, hrd, rfl⟩ := mem_load_next _ _ _ _ _ _ (by omega) hex
+  rw [List.cons_append, List.cons_append, List.nil_append] at hcs
+  -- mov r11, r10
+  obtain ⟨a1, hstep1, hcs1⟩ := mem_step_cons _ _ _ _ _ _ _ hcs hrip
+  have hex1 := mem_exec_mov64 c σ JitAst.R10 JitAst.R11 (c.codeBase + a1)
+  generalize hσ1 : ({ σ with rip := c.codeBase + a1 } : St).set JitAst.R11 (σ.get JitAst.R10) = σ1 at hex1
+  have hrel1 : Rel0 retAddr σ1 s := by
+    rw [← hσ1]
+    exact rel0_scratch _ _ _ _ _ (Or.inr rfl) (rel0_congr retAddr σ _ s hrel rfl rfl)
+  have hrip1 : σ1.rip = c.codeBase + a1 := by rw [← hσ1]; rfl
+  have hmem1 : σ1.mem = σ.mem := by rw [← hσ1]; rfl
+  have hr11 : σ1.get 11 = BitVec.ofNat 64 s.mem.mem.base := by
+    rw [← hσ1, ← hrel.pkt]; exact get_set_eq _ 11 _ (by omega)
+  have hsrc1 : σ1.get (regOf i.src.toNat) = x := by
+    rw [← hσ1, get_set_ne _ JitAst.R11 _ _ (fun e => (regOf_ne_special _ hs).2.2.1 e.symm), ← hx, ← hrel.regs _ hs]; rfl
+  -- add r11, src
+  obtain ⟨a2, hstep2, hcs2⟩ := mem_step_cons _ _ _ _ _ _ _ hcs1 hrip1
+  obtain ⟨σ0, hreg0, hmem0, hex2, hrip2⟩ := mem_exec_add64 c σ1 (regOf i.src.toNat) JitAst.R11 (c.codeBase + a2)
+  generalize hσ2 : σ0.set JitAst.R11 (σ1.get JitAst.R11 + σ1.get (regOf i.src.toNat)) = σ2 at hex2 hrip2
+  have hrel2 : Rel0 retAddr σ2 s := by
+    rw [← hσ2]
+    exact rel0_scratch _ _ _ _ _ (Or.inr rfl) (rel0_congr retAddr σ1 _ s hrel1 hreg0 hmem0)
+  have hmem2 : σ2.mem = σ.mem := by rw [← hσ2, ← hmem1, ← hmem0]; rfl
+  have hr11' : σ2.get 11 = BitVec.ofNat 64 s.mem.mem.base + x := by
+    rw [← hσ2]
+    show (σ0.set 11 (σ1.get 11 + σ1.get (regOf i.src.toNat))).get 11 = _
+    rw [get_set_eq _ 11 _ (by omega), hr11, hsrc1]
+  rw [← hr11'] at hrd
+  obtain ⟨k, σ', hsteps, hrel', hmem', hrip'⟩ :=
+    mem_sim_loadPacket c tgt a2 b σ2 s retAddr sz w 11 i.imm bs hcs2 hrip2 hrel2 (Or.inr rfl) hsz hw hrd
+  refine ⟨k + 1 + 1, σ', mem_stepsN_cons c σ σ1 _ (k + 1) (hstep1.trans hex1)
+    (mem_stepsN_cons c σ1 σ2 _ k (hstep2.trans hex2) hsteps), hrel', ?_, Or.inl ⟨hpc, hrip'⟩⟩
+  show readMem σ'.mem _ _ = readMem σ.mem _ _
+  rw [hmem', hmem2]
+
+/-! ### immediates and addends -/
+
+theorem mem_sx32_toNat (imm : BitVec 32) : ∃ k, (sx32 imm).toNat = imm.toNat + k * 2 ^ 32 := by
+  unfold sx32
+  rw [BitVec.toNat_signExtend, BitVec.toNat_setWidth]
+  have := imm.isLt
+  split
+  · exact ⟨2 ^ 32 - 1, by omega⟩
+  · exact ⟨0, by omega⟩
+
+theorem mem_imm8 (imm : BitVec 32) :
+    leBytes (if 8 = 64 then ((JitAst.storeImm 8 imm).signExtend 64).toNat else (JitAst.storeImm 8 imm).toNat) 1 =
+      leBytes (sx32 imm).toNat 1 := by
+  apply mem_leBytes_congr
+  obtain ⟨k, hk⟩ := mem_sx32_toNat imm
+  have h1 : imm.toNat &&& 255 = imm.toNat % 2 ^ 8 := Nat.and_two_pow_sub_one_eq_mod _ 8
+  rw [if_neg (by decide), hk]
+  simp only [JitAst.storeImm, if_true, BitVec.toNat_and, BitVec.toNat_ofNat]
+  show (imm.toNat &&& 255) % 2 ^ 8 = _
+  omega
+
+theorem mem_imm16 (imm : BitVec 32) :
+    leBytes (if 16 = 64 then ((JitAst.storeImm 16 imm).signExtend 64).toNat else (JitAst.storeImm 16 imm).toNat) 2 =
+      leBytes (sx32 imm).toNat 2 := by
+  apply mem_leBytes_congr
+  obtain ⟨k, hk⟩ := mem_sx32_toNat imm
+  have h1 : imm.toNat &&& 65535 = imm.toNat % 2 ^ 16 := Nat.and_two_pow_sub_one_eq_mod _ 16
+  rw [if_neg (by decide), hk]
+  simp only [JitAst.storeImm]
+  show (imm.toNat &&& 65535) % 2 ^ 16 = _
+  omega
+
+theorem mem_imm32 (imm : BitVec 32) :
+    leBytes (if 32 = 64 then (imm.signExtend 64).toNat else imm.toNat) 4 = leBytes (sx32 imm).toNat 4 := by
+  apply mem_leBytes_congr
+  obtain ⟨k, hk⟩ := mem_sx32_toNat imm
+  rw [if_neg (by decide), hk]
+  omega
+
+theorem mem_imm64 (imm : BitVec 32) :
+    leBytes (if 64 = 64 then (imm.signExtend 64).toNat else imm.toNat) 8 = leBytes (sx32 imm).toNat 8 := by
+  rw [if_pos rfl]; rfl
+
+theorem mem_xadd32 (x : BitVec 64) : (zx32 (lo32 x)).toNat % 2 ^ (8 * 4) = x.toNat % 2 ^ (8 * 4) := by
+  simp only [zx32, lo32, BitVec.toNat_setWidth]
+  omega
+
+/-! ### the 22 opcodes -/
+
+/-- the arm of a given opcode, once both register numbers are known to be mapped -/
+local macro "mem_arm_tac" h:ident hd:ident hs:ident : tactic =>
+  `(tactic| (unfold JitAst.arm; rw [mapRegister_eq _ $hd, mapRegister_eq _ $hs]; simp only [$h:ident]))
+
+/-- `jitExec` at a given opcode that is none of the special ones: the interpreter's arm -/
+local macro "mem_exec_tac" i:ident h:ident : tactic =>
+  `(tactic| (
+    have h85 : ¬ (Insn.opc $i = 0x85 ∧ Insn.src $i = 1) := fun e => by rw [e.1] at $h:ident; exact absurd $h (by decide)
+    have h95 : ¬ (Insn.opc $i = 0x95) := fun e => by rw [e] at $h:ident; exact absurd $h (by decide)
+    unfold EngineSem.jitExec EngineSem.cmpImmSigned EngineSem.xaddInsn
+    simp only [$h:ident]
+    rw [if_neg h85, if_neg h95]
+    unfold Interp.exec
+    simp only [$h:ident]))
+
+/-- `jitExec` at the two atomic-add opcodes -/
+local macro "mem_xexec_tac" h:ident : tactic =>
+  `(tactic| (unfold EngineSem.jitExec EngineSem.cmpImmSigned EngineSem.xaddInsn; simp only [$h:ident]))
+
+theorem mem_op_71 (i : Insn) (h : i.opc.toNat = 0x71) : ArmSim i :=
+  mem_sim_load i 8 1 rfl (by decide) (fun _ _ _ hd hs => by mem_arm_tac h hd hs) (fun _ _ => by mem_exec_tac i h)
+
+theorem mem_op_69 (i : Insn) (h : i.opc.toNat = 0x69) : ArmSim i :=
+  mem_sim_load i 16 2 rfl (by decide) (fun _ _ _ hd hs => by mem_arm_tac h hd hs) (fun _ _ => by mem_exec_tac i h)
+
+theorem mem_op_61 (i : Insn) (h : i.opc.toNat = 0x61) : ArmSim i :=
+  mem_sim_load i 32 4 rfl (by decide) (fun _ _ _ hd hs => by mem_arm_tac h hd hs) (fun _ _ => by mem_exec_tac i h)
+
+theorem mem_op_79 (i : Insn) (h : i.opc.toNat = 0x79) : ArmSim i :=
+  mem_sim_load i 64 8 rfl (by decide) (fun _ _ _ hd hs => by mem_arm_tac h hd hs) (fun _ _ => by mem_exec_tac i h)
+
+theorem mem_op_72 (i : Insn) (h : i.opc.toNat = 0x72) : ArmSim i :=
+  mem_sim_storeI i 8 1 (JitAst.storeImm 8 i.imm) rfl (by decide) (mem_imm8 i.imm)
+    (fun _ _ _ hd hs => by mem_arm_tac h hd hs) (fun _ _ => by mem_exec_tac i h)
+
+theorem mem_op_6a (i : Insn) (h : i.opc.toNat = 0x6a) : ArmSim i :=
+  mem_sim_storeI i 16 2 (JitAst.storeImm 16 i.imm) rfl (by decide) (mem_imm16 i.imm)
+    (fun _ _ _ hd hs => by mem_arm_tac h hd hs) (fun _ _ => by mem_exec_tac i h)
+
+theorem mem_op_62 (i : Insn) (h : i.opc.toNat = 0x62) : ArmSim i :=
+  mem_sim_storeI i 32 4 i.imm rfl (by decide) (mem_imm32 i.imm)
+    (fun _ _ _ hd hs => by mem_arm_tac h hd hs) (fun _ _ => by mem_exec_tac i h)
+
+theorem mem_op_7a (i : Insn) (h : i.opc.toNat = 0x7a) : ArmSim i :=
+  mem_sim_storeI i 64 8 i.imm rfl (by decide) (mem_imm64 i.imm)
+    (fun _ _ _ hd hs => by mem_arm_tac h hd hs) (fun _ _ => by mem_exec_tac i h)
+
+theorem mem_op_73 (i : Insn) (h : i.opc.toNat = 0x73) : ArmSim i :=
+  mem_sim_store i 8 1 rfl (by decide) (fun _ _ _ hd hs => by mem_arm_tac h hd hs) (fun _ _ => by mem_exec_tac i h)
+
+theorem mem_op_6b (i : Insn) (h : i.opc.toNat = 0x6b) : ArmSim i :=
+  mem_sim_store i 16 2 rfl (by decide) (fun _ _ _ hd hs => by mem_arm_tac h hd hs) (fun _ _ => by mem_exec_tac i h)
+
+theorem mem_op_63 (i : Insn) (h : i.opc.toNat = 0x63) : ArmSim i :=
+  mem_sim_store i 32 4 rfl (by decide) (fun _ _ _ hd hs => by mem_arm_tac h hd hs) (fun _ _ => by mem_exec_tac i h)
+
+theorem mem_op_7b (i : Insn) (h : i.opc.toNat = 0x7b) : ArmSim i :=
+  mem_sim_store i 64 8 rfl (by decide) (fun _ _ _ hd hs => by mem_arm_tac h hd hs) (fun _ _ => by mem_exec_tac i h)
+
+theorem mem_op_c3 (i : Insn) (h : i.opc.toNat = 0xc3) : ArmSim i :=
+  mem_sim_lockAdd i false 4 (fun x => zx32 (lo32 x)) rfl (by decide) mem_xadd32
+    (fun _ _ _ hd hs => by mem_arm_tac h hd hs) (fun _ _ => by mem_xexec_tac h)
+
+theorem mem_op_db (i : Insn) (h : i.opc.toNat = 0xdb) : ArmSim i :=
+  mem_sim_lockAdd i true 8 (fun x => x) rfl (by decide) (fun _ => rfl)
+    (fun _ _ _ hd hs => by mem_arm_tac h hd hs) (fun _ _ => by mem_xexec_tac h)
+
+theorem mem_op_30 (i : Insn) (h : i.opc.toNat = 0x30) : ArmSim i :=
+  mem_sim_ldabs i 8 1 rfl (by decide) (fun _ _ _ hd hs => by mem_arm_tac h hd hs) (fun _ _ => by mem_exec_tac i h)
+
+theorem mem_op_28 (i : Insn) (h : i.opc.toNat = 0x28) : ArmSim i :=
+  mem_sim_ldabs i 16 2 rfl (by decide) (fun _ _ _ hd hs => by mem_arm_tac h hd hs) (fun _ _ => by mem_exec_tac i h)
+
+theorem mem_op_20 (i : Insn) (h : i.opc.toNat = 0x20) : ArmSim i :=
+  mem_sim_ldabs i 32 4 rfl (by decide) (fun _ _ _ hd hs => by mem_arm_tac h hd hs) (fun _ _ => by mem_exec_tac i h)
+
+theorem mem_op_38 (i : Insn) (h : i.opc.toNat = 0x38) : ArmSim i :=
+  mem_sim_ldabs i 64 8 rfl (by decide) (fun _ _ _ hd hs => by mem_arm_tac h hd hs) (fun _ _ => by mem_exec_tac i h)
+
+theorem mem_op_50 (i : Insn) (h : i.opc.toNat = 0x50) : ArmSim i :=
+  mem_sim_ldind i 8 1 rfl (by decide) (fun _ _ _ hd hs => by mem_arm_tac h hd hs) (fun _ _ => by mem_exec_tac i h)
+
+theorem mem_op_48 (i : Insn) (h : i.opc.toNat = 0x48) : ArmSim i :=
+  mem_sim_ldind i 16 2 rfl (by decide) (fun _ _ _ hd hs => by mem_arm_tac h hd hs) (fun _ _ => by mem_exec_tac i h)
+
+theorem mem_op_40 (i : Insn) (h : i.opc.toNat = 0x40) : ArmSim i :=
+  mem_sim_ldind i 32 4 rfl (by decide) (fun _ _ _ hd hs => by mem_arm_tac h hd hs) (fun _ _ => by mem_exec_tac i h)
+
+theorem mem_op_58 (i : Insn) (h : i.opc.toNat = 0x58) : ArmSim i :=
+  mem_sim_ldind i 64 8 rfl (by decide) (fun _ _ _ hd hs => by mem_arm_tac h hd hs) (fun _ _ => by mem_exec_tac i h)
+
+/-- loads, stores, atomic adds and packet loads: the emitted x86-64 code simulates `EngineSem.jitExec` -/
 theorem armSim_mem (i : Insn) (h : i.opc.toNat ∈ memOpcodes) : ArmSim i := by
-  sorry
+  simp only [memOpcodes, List.mem_cons, List.not_mem_nil, or_false] at h
+  rcases h with h | h | h | h | h | h | h | h | h | h | h | h | h | h | h | h | h | h | h | h | h | h
+  · exact mem_op_61 i h
+  · exact mem_op_69 i h
+  · exact mem_op_71 i h
+  · exact mem_op_79 i h
+  · exact mem_op_62 i h
+  · exact mem_op_6a i h
+  · exact mem_op_72 i h
+  · exact mem_op_7a i h
+  · exact mem_op_63 i h
+  · exact mem_op_6b i h
+  · exact mem_op_73 i h
+  · exact mem_op_7b i h
+  · exact mem_op_c3 i h
+  · exact mem_op_db i h
+  · exact mem_op_20 i h
+  · exact mem_op_28 i h
+  · exact mem_op_30 i h
+  · exact mem_op_38 i h
+  · exact mem_op_40 i h
+  · exact mem_op_48 i h
+  · exact mem_op_50 i h
+  · exact mem_op_58 i h
 
 end Rbpf.JitSim
